@@ -6,6 +6,7 @@ of `v` (`Approx`) of the same type, under the hypotheses `Fits` and `SetsRebuild
 import CtyModel.Lemmas.MsgpackUnknown
 import CtyModel.Lemmas.TyJsonRT
 import CtyModel.Lemmas.TyEq
+import CtyModel.Lemmas.TyMisc
 import CtyModel.Lemmas.Asc
 namespace CtyModel
 namespace Msgpack
@@ -27,7 +28,32 @@ end
 theorem goodTy_json (E : Ext) (t : Ty) (h : goodTy E t = true) :
     ∃ j, Ty.toJson t = .ok j ∧ Ty.ofJson E.norm j = .ok t := by
   simp only [goodTy, Bool.and_eq_true, Bool.not_eq_true'] at h
-  exact Ty.json_roundtrip E.norm t h.1.1 h.1.2 (by rw [← tyNamesFixed_eq]; exact h.2)
+  exact Ty.json_roundtrip E.norm t h.1.1.1 h.1.1.2 (by rw [← tyNamesFixed_eq]; exact h.2)
+
+theorem goodTy_stripOpt (E : Ext) (t : Ty) (h : goodTy E t = true) : t.stripOpt = t := by
+  simp only [goodTy, Bool.and_eq_true, Bool.not_eq_true'] at h
+  exact Ty.stripOpt_id_of_noOpt t h.1.2
+
+/-! ### optional-attribute annotations of the constraint -/
+
+theorem isDyn_stripOpt (t : Ty) : t.stripOpt.isDyn = t.isDyn := by
+  cases t <;> simp [Ty.stripOpt, Ty.isDyn]
+
+mutual
+theorem wf_stripOpt : ∀ t : Ty, t.wf = true → t.stripOpt.wf = true
+  | .bool, _ | .number, _ | .string, _ | .dyn, _ | .capsule _, _ => by simp [Ty.stripOpt, Ty.wf]
+  | .list e, h | .set e, h | .map e, h => by
+    simp only [Ty.wf] at h; simp [Ty.stripOpt, Ty.wf, wf_stripOpt e h]
+  | .tuple es, h => by simp only [Ty.wf] at h; simp [Ty.stripOpt, Ty.wf, wfL_stripOptL es h]
+  | .object ns ts os, h => by
+    simp only [Ty.wf, Bool.and_eq_true] at h
+    simp [Ty.stripOpt, Ty.wf, wfL_stripOptL ts h.2, Ty.stripOptL_length, h.1.1.1, h.1.1.2, h.1.2]
+theorem wfL_stripOptL : ∀ ts : List Ty, Ty.wfL ts = true → Ty.wfL (Ty.stripOptL ts) = true
+  | [], _ => rfl
+  | t :: ts, h => by
+    simp only [Ty.wfL, Bool.and_eq_true] at h
+    simp [Ty.stripOptL, Ty.wfL, wf_stripOpt t h.1, wfL_stripOptL ts h.2]
+end
 
 theorem equals_eq {a b : Ty} (ha : a.wf = true) (hb : b.wf = true) (h : a.equals b = true) : a = b :=
   (Ty.equals_iff_eq a b ha hb).mp h
@@ -268,7 +294,7 @@ theorem child_rt (E : Ext) (p : Payload) (ih : RTP E p) (ce ve : Ty) (hce : ce.w
       cases ce <;> simp_all [Ty.isDyn]
     subst hced
     refine ⟨.arr [.binj j, it0], by rw [hci]; simp [wrapDyn, hj1, hm], p', ?_, ha⟩
-    simp [unmarshal, typeOfJson, hj2, hu]
+    simp [unmarshal, typeOfJson, hj2, goodTy_stripOpt E ve hgood, hu]
   · simp only [hw, if_false] at hfit
     have hci : childItem E ce ve p = marshalP E ve p ce := by
       cases p <;> simp [childItem, hw, fitsP_not_marked] at hfit ⊢
@@ -556,16 +582,81 @@ theorem marshalV_eq (E : Ext) (v : Value) (ct : Ty) : marshalV E v ct = childIte
   unfold marshalV childItem
   cases v.v <;> rfl
 
-/-- The round trip: under `Fits` (and the set law) `marshal` succeeds, `unmarshal`
+/-! ### `marshal` does not look at the optional-attribute annotations of the constraint -/
+
+/-- what is proved of every payload -/
+def SO (E : Ext) (p : Payload) : Prop := ∀ vt ct : Ty, marshalP E vt p ct.stripOpt = marshalP E vt p ct
+
+theorem childItem_so (E : Ext) (p : Payload) (ih : SO E p) (ce ve : Ty) :
+    childItem E ce.stripOpt ve p = childItem E ce ve p := by
+  cases p <;> simp only [childItem, isDyn_stripOpt, ih ve ce]
+
+theorem marshalAll_so (E : Ext) (ve ce : Ty) : ∀ ps : List Payload, (∀ p ∈ ps, SO E p) →
+    marshalAll E ve ps ce.stripOpt = marshalAll E ve ps ce
+  | [], _ => by simp [marshalAll]
+  | p :: ps, ih => by
+    rw [marshalAll_cons, marshalAll_cons, childItem_so E p (ih p (by simp)),
+      marshalAll_so E ve ce ps (fun q hq => ih q (by simp [hq]))]
+
+theorem marshalZip_so (E : Ext) : ∀ (ves : List Ty) (ps : List Payload) (ces : List Ty), (∀ p ∈ ps, SO E p) →
+    marshalZip E ves ps (Ty.stripOptL ces) = marshalZip E ves ps ces
+  | ve :: ves, p :: ps, ce :: ces, ih => by
+    simp only [Ty.stripOptL]
+    rw [marshalZip_cons, marshalZip_cons, childItem_so E p (ih p (by simp)),
+      marshalZip_so E ves ps ces (fun q hq => ih q (by simp [hq]))]
+  | [], _, _, _ => by simp [marshalZip]
+  | _ :: _, [], _, _ => by simp [marshalZip]
+  | _ :: _, _ :: _, [], _ => by simp [marshalZip, Ty.stripOptL]
+
+theorem so_seq (E : Ext) (vs : List Payload) (ih : ∀ p ∈ vs, SO E p) : SO E (.seq vs) := by
+  intro vt ct
+  cases ct <;> cases vt <;> simp only [Ty.stripOpt, marshalP]
+  case list.list ce ve => rw [marshalAll_so E ve ce vs ih]
+  case tuple.tuple ces ves => rw [marshalZip_so E ves vs ces ih, Ty.stripOptL_length]
+
+theorem so_sset (E : Ext) (ids : List Int) (vs : List Payload) (ih : ∀ p ∈ vs, SO E p) : SO E (.sset ids vs) := by
+  intro vt ct
+  cases ct <;> cases vt <;> simp only [Ty.stripOpt, marshalP]
+  case set.set ce ve => rw [marshalAll_so E ve ce vs ih]
+
+theorem so_smap (E : Ext) (ks : List String) (vs : List Payload) (ih : ∀ p ∈ vs, SO E p) : SO E (.smap ks vs) := by
+  intro vt ct
+  cases ct <;> cases vt <;> simp only [Ty.stripOpt, marshalP]
+  case map.map ce ve => rw [marshalAll_so E ve ce vs ih]
+  case object.object cns cts cos vns vts vos => rw [marshalZip_so E vts vs cts ih, Ty.stripOptL_length]
+
+mutual
+theorem so (E : Ext) : ∀ p : Payload, SO E p
+  | .null => by intro vt ct; simp [marshalP]
+  | .unk r => by intro vt ct; simp [marshalP]
+  | .b _ => by intro vt ct; cases ct <;> simp [marshalP, Ty.stripOpt]
+  | .n _ => by intro vt ct; cases ct <;> simp [marshalP, Ty.stripOpt]
+  | .s _ => by intro vt ct; cases ct <;> simp [marshalP, Ty.stripOpt]
+  | .caps => by intro vt ct; cases ct <;> simp [marshalP, Ty.stripOpt]
+  | .bad _ => by intro vt ct; simp [marshalP]
+  | .marked _ _ => by intro vt ct; simp [marshalP]
+  | .seq vs => so_seq E vs (soL E vs)
+  | .sset ids vs => so_sset E ids vs (soL E vs)
+  | .smap ks vs => so_smap E ks vs (soL E vs)
+theorem soL (E : Ext) : ∀ ps : List Payload, ∀ p ∈ ps, SO E p
+  | [], _, h => by simp at h
+  | q :: qs, p, h => by
+    by_cases hp : p = q
+    · rw [hp]; exact so E q
+    · exact soL E qs p (by simpa [hp] using h)
+end
+
+/-- The round trip: under `Fits` (and the set law) `Marshal` succeeds, `Unmarshal`
 of its result with the same constraint succeeds, and what comes back has the
 original's type and is an acceptable decoding of it. -/
 theorem roundtrip (E : Ext) (v : Value) (t : Ty) (hfit : Fits E t v = true) (hset : SetsRebuild E v)
     (hconf : Ty.conformErrs t v.ty = 0) :
-    ∃ it v', marshal E v t = .ok it ∧ unmarshal E it t = .ok v' ∧ ApproxV v' v := by
-  have hfit' : (t.wf = true ∧ v.ty.wf = true) ∧ fitsChild E t v.ty v.v = true := by
-    simpa [Fits, fitsChild] using hfit
+    ∃ it v', marshal E v t = .ok it ∧ Unmarshal E it t = .ok v' ∧ ApproxV v' v := by
+  have hfit' : (t.wf = true ∧ v.ty.wf = true) ∧ fitsChild E t.stripOpt v.ty v.v = true := by
+    simpa [Fits, fitsChild, isDyn_stripOpt] using hfit
   obtain ⟨⟨ht, hv⟩, hc⟩ := hfit'
-  obtain ⟨it, hm, p', hu, ha⟩ := child_rt E v.v (rtp E v.v) t v.ty ht hv hset hc
+  obtain ⟨it, hm, p', hu, ha⟩ := child_rt E v.v (rtp E v.v) t.stripOpt v.ty (wf_stripOpt t ht) hv hset hc
+  rw [childItem_so E v.v (so E v.v)] at hm
   have hnm : v.v.isMarked = false := by
     cases hvv : v.v <;> simp_all [Payload.isMarked, childItem]
   refine ⟨it, ⟨v.ty, p'⟩, ?_, hu, rfl, ha⟩
